@@ -158,7 +158,7 @@ def check(ck):
                     continue
                 got.add(_pick(last.ast.value, tr.env, {"has_alias": has_alias}, atoms))
             ck.ob(f"get_field_entry_key: alias {'present' if has_alias else 'absent'} -> {want}", got == {want}, gk,
-                  gk.node, construct=f"table:has_alias={has_alias}", detail=f"got {sorted(got)}")
+                  gk.node, construct=f"table:has_alias={has_alias}", detail=f"got {sorted(got)}" + atoms.note())
         # order: plain dict, no reordering
         for fn in (collect, repo.func(COLLECT, "collect_subfields"), repo.func(EXECUTE, "execute_fields"),
                    repo.func(EXECUTE, "execute_fields_serially"), repo.func(EXECUTE, "execute_operation")):
@@ -320,7 +320,7 @@ def _should_include_table(ck, repo):
                     ("InlineFragmentNode", {"is_field": False, "is_spread": False, "is_inline": True})):
         got = _pick(hook_assign.value, {}, v, katoms)
         ck.ob(f"should_include_node: {kind} selects hook {want[kind]}", got == want[kind], f, hook_assign,
-              construct=f"hook:{kind}", detail=f"got {got}")
+              construct=f"hook:{kind}", detail=f"got {got}" + katoms.note())
     wcall = fv.one_call("wraps_with_directives")
     ck.ob("should_include_node: the chosen hook name is the one wrapped", arg_text(wcall, 1, "directive_hook") == unparse(hook_assign.targets[0]),
           f, wcall, construct="hook:passed")
@@ -410,7 +410,7 @@ def _condition_match_table(ck, repo):
             got.add(r)
         n += 1
         ck.ob(f"does_fragment_condition_match table {val}", got == {want}, f, f.node,
-              construct="table:" + ",".join(f"{k}={int(v)}" for k, v in val.items()), detail=f"got {got}, specification {want}")
+              construct="table:" + ",".join(f"{k}={int(v)}" for k, v in val.items()), detail=f"got {got}, specification {want}" + atoms.note())
     ck.count("condition_match_valuations", n, 10)
     sc = fv.one_call("schema_type_from_ast")
     ck.ob("does_fragment_condition_match resolves the fragment's own type condition in the request's schema",
@@ -767,7 +767,7 @@ def _type_resolver(ck, repo):
                 v = pick if pick is not None else v.values[-1]
             got.add(_pick(v, tr.env, val, atoms) if v is not None else "<none>")
         ck.ob(f"get_type_resolver precedence {val}", got == {want}, f, f.node, construct=f"table:field={int(fl)},type={int(tl)}",
-              detail=f"got {sorted(got)}, want {want}")
+              detail=f"got {sorted(got)}, want {want}" + atoms.note())
     a = repo.func("tartiflette/coercers/outputs/abstract_coercer.py", "abstract_coercer")
     av = FuncView(a)
     ap = a.positional_params
